@@ -30,6 +30,8 @@ remembered block only under a guard on the end of the request; the driver-hole r
 Round 6: the whole input handed to a buffer-protocol consumer (unpack_from, memoryview); a
 cursor returned by the previous child is the current cursor.
 Round 7: a strategy installed only for the end-of-string marker may use len(raw).
+Round 8: includes the modifier defaults of C10, the strict-decode rule of C04 on every unpack
+strategy and the Int codec rule of C05.
 """
 import ast
 
